@@ -121,6 +121,13 @@ pub struct StreamSpec {
     /// byte at this offset fails, and so does every later call
     #[serde(default)]
     pub hard_error_offset: Option<u64>,
+    /// the replay does not start at stream offset 0: this many unrelated bytes precede it and the
+    /// stream is handed to peppi positioned at the replay's first byte (a member of a larger file)
+    #[serde(default)]
+    pub prefix: u32,
+    /// unrelated bytes follow the replay's closing brace
+    #[serde(default)]
+    pub suffix: u32,
 }
 
 impl Default for StreamSpec {
@@ -133,6 +140,8 @@ impl Default for StreamSpec {
             hard_error_kind: 0,
             seek_error: false,
             hard_error_offset: None,
+            prefix: 0,
+            suffix: 0,
         }
     }
 }
@@ -252,4 +261,13 @@ impl ScenarioSpec {
     pub fn knob(&self, k: &str) -> i64 {
         self.knobs.get(k).copied().unwrap_or(0)
     }
+}
+
+/// Parse JSON without serde_json's recursion limit (metadata trees in specs nest deeply).
+pub fn from_json_unbounded<T: serde::de::DeserializeOwned>(text: &str) -> Result<T, String> {
+    let mut de = serde_json::Deserializer::from_str(text);
+    de.disable_recursion_limit();
+    let v = T::deserialize(&mut de).map_err(|e| e.to_string())?;
+    de.end().map_err(|e| e.to_string())?;
+    Ok(v)
 }
